@@ -32,7 +32,7 @@ type gnet struct {
 	wake    chan struct{}
 	c2s     [][]byte // every datagram the client sent (as sent)
 	s2c     [][]byte // every datagram the server sent (as sent, including those the network then drops)
-	onC2S   func(idx int)
+	onC2S   func(idx int, data []byte)
 }
 
 type pend struct {
@@ -44,6 +44,7 @@ type pend struct {
 	fate  string
 	inj   *injSpec // a scheduled injection (data crafted at delivery time)
 	trig  bool     // "first client datagram seen" trigger
+	when  string   // trig: which anchor ("" first client datagram, "hs" the client's first Handshake packet is on the wire)
 	toSrv bool     // a datagram for the server
 }
 
@@ -150,7 +151,7 @@ func (n *gnet) SendPacket(p simnet.Packet) error {
 		n.mu.Unlock()
 		n.signal()
 		if cb != nil {
-			cb(idx)
+			cb(idx, data)
 		}
 		return nil
 	}
